@@ -38,7 +38,7 @@ def main():
     ap.add_argument("-j", type=int, default=4)
     a = ap.parse_args()
     paths = sorted(glob.glob(os.path.join(VERIF, "mutants", "*.diff")) + glob.glob(os.path.join(VERIF, "seeded", "*", "patch*.diff")))
-    paths = [p for p in paths if a.filter in p]
+    paths = [p for p in paths if a.filter in p and "/_rejected/" not in p]
     results = []
     with ThreadPoolExecutor(a.j) as ex:
         for path, line in ex.map(lambda p: one(p, a.tier, max(2, 16 // a.j)), paths):
